@@ -845,6 +845,15 @@ func (a *Analysis) partKey(st *State) string {
 			parts = append(parts, fmt.Sprintf("%s=%d", v.Name(), c))
 		}
 	}
+	for _, prm := range a.Fn.Params {
+		if isBoolType(prm.Type()) {
+			if r, ok := st.rng[mkLeaf("param", prm.Name(), prm.Type()).Key]; ok {
+				if c, isC := r.IsConst(); isC {
+					parts = append(parts, fmt.Sprintf("%s=%d", prm.Name(), c))
+				}
+			}
+		}
+	}
 	if len(a.TrackFields) > 0 {
 		for k, v := range st.mem {
 			if me := st.memE[k]; me != nil && me.Op == "fa" && a.TrackFields[me.S] {
@@ -935,6 +944,14 @@ func (a *Analysis) flow(st *State, from, to *ssa.BasicBlock) *State {
 	for _, b := range pbs {
 		leaf := mkLeaf("phi", a.leafName(b.phi, ""), b.phi.Type())
 		t := b.phi.Type()
+		if !loopHead && isBoolType(t) {
+			if _, isC := b.r.IsConst(); !isC {
+				// boolean merge (&&, ||): keep the incoming condition term so
+				// that a later branch on the phi refines its operands
+				n.env[b.phi] = b.e
+				continue
+			}
+		}
 		if !loopHead && !isFlagPhi(b.phi, nil) {
 			// plain merge: keep the incoming term; states that disagree are
 			// generalised to the phi leaf when they are joined (State.join)
